@@ -142,6 +142,8 @@ class BaseNode(Node):
         """
         if node.keyword!='mod' and node.dtype!=self.dtype:
             raise Exception(f"Datatype {self.dtype} of node '{self.name}' cannot be changed to {node.dtype}")
+        if getattr(node,'value_array',False) and not self.dimension:
+            raise Exception("Array value set to scalar node:",node.code,node.value_raw)
         if not self.value:  # create a dummy value if none
             self.set_value(node.value_raw)
         # copy value type modify values and units
@@ -211,7 +213,11 @@ class BaseNode(Node):
                     if value is not None:
                         value = self.slice_value(list(node.value_slice), value)
                         if not node.dimension and not np.isscalar(value):
-                            raise Exception("Array value set to scalar node:",node.code,value)
+                            if getattr(node,'keyword',None)=='mod':
+                                # a modification has no dimensions of its own: the node it modifies checks them
+                                node.value_array = True
+                            else:
+                                raise Exception("Array value set to scalar node:",node.code,value)
                     node.value_slice = None
                 node.value_raw = self.raw_value(value, isinstance(nodes[0].value, IntegerType))
             else:
